@@ -47,3 +47,13 @@ package watch
 //@     requires #C20.task-env-kept forall k string :: k != "EventName" && k != "EventPath" && old(cdom[w.task.Env][k]) ==> cdom[arg0.Env][k] && cval[arg0.Env][k] == old(cval[w.task.Env][k])
 //@     requires #C20.runner-not-cancelled !ctxCancelled[w.r]
 //@     assumepre runnerOK(w.r) && taskOK(arg0) && compiledClosed() // Cancel leaves the runner's configuration alone
+
+// ---- C20: the watcher keeps serving events for as long as it runs: the event loop ends only
+// when the watcher was closed or the notification backend closed one of its channels
+//@ func (*Watcher).Run$2
+//@   waive safe.close "finished is closed only by this goroutine, started once per Run; double-close safety of a watcher run twice is not part of C20"
+//@   requires w != nil && w.fsw != nil && w.r != nil && runnerOK(w.r) && w.task != nil && taskOK(w.task) && compiledClosed()
+//@   modifies *
+//@   ensures #C20.serves-until-closed w.isClosed || closed(w.fsw.Events) || closed(w.fsw.Errors)
+//@   loop 1 "for"
+//@     invariant #same w != nil && w.fsw != nil && w.r != nil && runnerOK(w.r) && w.task != nil && taskOK(w.task) && compiledClosed()
